@@ -38,6 +38,11 @@ CLAIMED = {
             "shift difference; signature sets checked for completeness and uniqueness; set_HR/get_HR with a sqrt stub",
             "4/C10", "The Poisson law and orthogonality of the overlaps (values of exp/eig of a 100-level matrix) "
             "are not decided."),
+    "C11": ("SMT (z3 real arithmetic with exact roots of unity; hfft by its defining sum) over symbolic execution of "
+            "the real absorption calculator: spectrum vs direct Fourier sum on the returned axis, purity of the "
+            "in-place diagonalise/back-transform, dipole sum rule and quadratic scaling", "4/C11",
+            "One open known finding (C11-hfft-axis-displacement). Line positions for physical line shapes and the "
+            "dynamics route are not decided."),
     "C12": ("SMT (z3 polynomial real arithmetic) over symbolic execution of the real LabSetup / liouville_pathway "
             "orientational-averaging code: the three full contractions that fix an isotropic rank-4 average, the "
             "bilinear form, rotation invariance (plane rotations) and fourth-power scaling", "4/C12",
@@ -65,5 +70,5 @@ CLAIMED = {
 }
 _NYB = "check not built yet in this round (design in DESIGN.md section 4); not claimed until its harness is sound"
 NOT_APPLICABLE = {p: _NYB for p in
-                  ["C%02d" % i for i in range(2, 20) if i not in (2, 3, 4, 5, 6, 7, 8, 9, 10, 12, 13, 14, 15, 16, 17, 19)]}
+                  ["C%02d" % i for i in range(2, 20) if i not in (2, 3, 4, 5, 6, 7, 8, 9, 10, 11, 12, 13, 14, 15, 16, 17, 19)]}
 SOURCE_COMMITS = []
